@@ -924,11 +924,15 @@ def check_wkt(ctx, j, line, c, t, gi, gm, replay, dist, disagree, hexe):
     cc = (0, 16, 2, 0) if c == 'L' else c
     trim, prec, dim, old = cc
     W, R = gi.get('W', ''), gi.get('R', '')
+    # a finite ordinate next to DBL_MAX rounded up past the largest double: the text carries an infinity the geometry never had (C10-E);
+    # the constructors of curved geometries then refuse it ("orientationIndex encountered NaN/Inf numbers"), which the structural model does not model
+    overflowed = any(NUM_RE.match(x) and math.isinf(float(x)) for x in (m.group(0) for m in WKT_NUM.finditer(W)))
     if gm is not None:
         if gm.get('W') != W:
             disagree('WKT text', line, gm.get('W'), W)
         if (gm.get('R', '').split(' ')[0] == 'FAIL') != (R.split(' ')[0] == 'FAIL') or (not R.startswith('FAIL') and gm.get('R') != R):
-            disagree('WKT re-read', line, gm.get('R'), R)
+            if not (overflowed and R.startswith('FAIL') and 'NaN/Inf' in R):
+                disagree('WKT re-read', line, gm.get('R'), R)
     if W.startswith('WRITE-FAIL'):
         report(ctx, None, 'wkt_write_%d' % j, dict(case=line, implementation=W, replay=replay), 'WKT writer failed: ' + W[:200]); return
     if R.startswith('FAIL'):
@@ -937,8 +941,8 @@ def check_wkt(ctx, j, line, c, t, gi, gm, replay, dist, disagree, hexe):
         fid = ('C10-B' if old else 'C10-A') if (gm is None or gm.get('X') == 'NONE') else None
         if fid == 'C10-B' and mixed_collection(t, dim, True):
             fid = 'C10-A'
-        if fid is None and any(NUM_RE.match(x) and math.isinf(float(x)) for x in (m.group(0) for m in WKT_NUM.finditer(W))):
-            fid = 'C10-E'       # a finite ordinate next to DBL_MAX was rounded up past the largest double: the text carries an infinity the geometry never had
+        if fid is None and overflowed:
+            fid = 'C10-E'
 
         def fails(t2):
             l2 = 'G %d %d %d %d %s' % (trim, prec, dim, old, ' '.join(tree_words(t2))) if c != 'L' else 'G L - - - ' + ' '.join(tree_words(t2))
